@@ -861,7 +861,8 @@ def build(repo):
                    "direct": bool(d & {0, 2}), "ctx_direct": 1 in d,
                    "calls": sorted({node_id[(c, p)] for (o, c, p) in fi.calls if o in (0, 2) and (c, p) in node_id}),
                    "ctx_calls": sorted({node_id[(c, p)] for (o, c, p) in fi.calls if o == 1 and (c, p) in node_id}),
-                   "sites": [site_json(s) for s in fi.sites.values()], "notes": fi.notes}
+                   "sites": [site_json(s) for s in fi.sites.values()], "notes": fi.notes,
+                   "pushes": push_shape(e["text"])}
             tmpl.append(rec)
     fns = {}
     for fi in w.fns:
@@ -873,6 +874,29 @@ def build(repo):
             "dyncalls": fi.dyncalls, "notes": fi.notes, "unknown_methods": sorted(fi.unknown_methods),
         }
     return {"nodes": nodes, "templates": tmpl, "functions": fns, "rounds": rounds}
+
+
+def push_shape(text):
+    """How a template pushes: number of `stack.append(<bare name>)` and of pushes whose
+    argument is deep_copy(...) / list(deep_copy(...)) (the copy-on-duplicate mechanism)."""
+    bare = copied = other = 0
+    try:
+        tree = ast.parse(text)
+    except SyntaxError:
+        return None
+    for n in ast.walk(tree):
+        if (isinstance(n, ast.Call) and isinstance(n.func, ast.Attribute) and n.func.attr == "append"
+                and isinstance(n.func.value, ast.Name) and n.func.value.id == "stack" and len(n.args) == 1):
+            a = n.args[0]
+            if isinstance(a, ast.Call) and isinstance(a.func, ast.Name) and a.func.id == "list" and len(a.args) == 1:
+                a = a.args[0]
+            if isinstance(a, ast.Name):
+                bare += 1
+            elif isinstance(a, ast.Call) and isinstance(a.func, ast.Name) and a.func.id == "deep_copy" and len(a.args) == 1:
+                copied += 1
+            else:
+                other += 1
+    return {"bare": bare, "copied": copied, "other": other}
 
 
 def site_json(s):
@@ -969,6 +993,13 @@ def emit(an):
                         % (G.cstr(t["key"]), G.cstr(t["fn"]), G.cbool(t["direct"]), nlist(t["calls"]),
                            G.cbool(t["ctx_direct"]), nlist(t["ctx_calls"])))
         s += f"Definition {name} : list mtempl :=\n  " + G.clist(rows) + ".\n"
+    s += ("(* how each element template pushes: stack.append(<bare name>) count, pushes wrapped in\n"
+          "   deep_copy(...) (or list(deep_copy(...))) count; templates that do not parse are left out *)\n")
+    rows = []
+    for t in an["templates"]:
+        if t["kind"] == "element" and t["pushes"] is not None and (t["pushes"]["copied"] or t["key"] in (":", "D", "Ḃ", "¾")):
+            rows.append("{| dt_key := %s; dt_bare := %d; dt_copied := %d |}" % (G.cstr(t["key"]), t["pushes"]["bare"], t["pushes"]["copied"]))
+    s += "Definition dup_templates : list dtempl :=\n  " + G.clist(rows) + ".\n"
     return s
 
 
@@ -978,7 +1009,8 @@ FAILED = ("(* GENERATED by tools/gen_mutation.py: the translator FAILED (%s). *)
           "Import ListNotations.\n"
           "Definition mutation_translator_ok : bool := false.\n"
           "Definition mut_nodes : list mnode := [].\n"
-          "Definition mut_elements : list mtempl := [].\nDefinition mut_modifiers : list mtempl := [].\n")
+          "Definition mut_elements : list mtempl := [].\nDefinition mut_modifiers : list mtempl := [].\n"
+          "Definition dup_templates : list dtempl := [].\n")
 
 
 def generate(repo, outdir):
